@@ -37,7 +37,8 @@ class Gen:
         deps = r.sample(avail, min(k, len(avail)))
         sc = {
             "deps": deps,
-            "ifc": [r.choice(WATCH)] if r.random() < (0.35 if p == "ifcreate" else 0.12) else [],
+            "ifc": (r.choice([[WATCH[0]], [WATCH[1]], [WATCH[0], WATCH[1]], [WATCH[1], WATCH[0]]])
+                    if r.random() < (0.35 if p == "ifcreate" else 0.12) else []),
             "always": 1 if r.random() < (0.4 if p == "always" else 0.1) else 0,
             "stamp": 1 if r.random() < (0.6 if p == "stamp" else 0.25) else 0,
             "out": r.choices(["S", "3", "N", "B", "D"], weights=[40, 40, 4, 4, 6] if p != "outputs" else [25, 25, 15, 15, 20])[0],
@@ -141,11 +142,16 @@ class Gen:
                 t = r.choice(self.all_targets())
                 self.steps.append("R %s" % t)
                 self.count("remove_target")
-            elif x < 0.75:
+            elif x < (0.90 if self.profile == "override" else 0.75):
                 # user overwrites a (maybe generated) target by hand
-                t = r.choice(self.all_targets())
+                if self.profile == "override" and getattr(self, "fav", None) is None:
+                    self.fav = r.choice(self.all_targets())
+                t = self.fav if (self.profile == "override" and r.random() < 0.7) else r.choice(self.all_targets())
                 self.steps.append("W %s %d" % (t, self.newtok()))
                 self.count("user_overwrite")
+                if self.profile == "override" and r.random() < 0.7:
+                    self.steps.append("C %s k0 %s" % (r.choice(["redo", "ifchange"]), t))
+                    self.count("cmd_after_overwrite")
             elif x < 0.80:
                 w = r.choice(WATCH)
                 if r.random() < 0.6:
